@@ -148,9 +148,12 @@ func (e *Emitter) Reset(label string) {
 	e.Op("-", "R "+label, "ok")
 	e.Cases++
 }
-func (e *Emitter) Count(k string) {
-	if e.Capture == nil {
-		e.Stats[k]++
+func (e *Emitter) Count(k string) { e.Stats[k]++ }
+
+// Merge adds the counters of a capturing emitter.
+func (e *Emitter) Merge(o *Emitter) {
+	for k, v := range o.Stats {
+		e.Stats[k] += v
 	}
 }
 
